@@ -35,7 +35,7 @@ ViewOf(R, i) == View(R, TyOf(i), ValOf(i))
 Unconstrained(e) == e.k \in {"opq", "idef", "any"}
 \* does the logged result agree with what the contract demands?
 Agrees(exp, out) ==
-  \/ Unconstrained(exp) /\ out.k # "panic"
+  \/ Unconstrained(exp)
   \/ exp.k = "panic"
   \/ exp = out
   \/ exp = VZero /\ IsZeroV(out)                 \* "a zero": the contract leaves its sign open
@@ -46,7 +46,8 @@ CanHold(T, out) == out.k = "opq" \/ Holds(T, out)
 
 RingOps == {"Add", "Sub", "Mul", "Div", "Min", "Max"}
 RingExpT(op, R, x, y) ==
-  IF x.k = "idef" \/ y.k = "idef" THEN IDef
+  IF Cls(R) = "int" /\ op = "Div" /\ y = VZero THEN PanicRes
+  ELSE IF x.k = "idef" \/ y.k = "idef" THEN IDef
   ELSE IF x.k = "opq" \/ y.k = "opq" THEN Opq
   ELSE IF op = "Min" THEN MinRes(x, y)
   ELSE IF op = "Max" THEN MaxRes(x, y)
